@@ -259,6 +259,12 @@ def rotate_vector_around_an_axis(theta: float, axis: Vector, vec: Vector) -> Vec
         rot_y = rotate_atoms_around_y_axis(beta)
         vec = rot_y @ vec
         axis = rot_y @ axis
+    elif axis.z < 0:
+        # axis points along -z: turn it onto +z as well
+        beta = math.pi
+        rot_y = rotate_atoms_around_y_axis(beta)
+        vec = rot_y @ vec
+        axis = rot_y @ axis
     rot_z = rotate_atoms_around_z_axis(theta)
     vec = rot_z @ vec
     rot_y = rotate_atoms_around_y_axis(-beta)
